@@ -176,6 +176,8 @@ def _input(draw, labelled, max_obj, max_sp, max_fam, polytomy=False, coherent=Tr
     }
     if spec["costs"]["hgt"] == "inf" and draw(st.booleans()):
         spec["inf_as"] = "infinity"
+    if draw(st.integers(0, 4)) == 0:
+        spec["cost_float"] = True
     if pool is UNDERSCORE_SPECIES:
         names = list(pool[:nsp])
         intended = {leaf: next(sp for sp in sorted(names, key=len, reverse=True)
@@ -206,7 +208,7 @@ def _input(draw, labelled, max_obj, max_sp, max_fam, polytomy=False, coherent=Tr
             syn[leaf] = sub
         spec["syn"] = syn
         # through the API a synteny may be any sequence, not only the lists that JSON yields
-        spec["syn_as"] = draw(st.sampled_from(["list", "list", "list", "tuple"]))
+        spec["syn_as"] = draw(st.sampled_from(["list", "list", "list", "tuple", "defaultdict"]))
         if consistent and spec["named"] in (0, 1) and nobj > 1 and draw(st.integers(0, 3)) == 0:
             # named == 0: the root is unnamed, so the prescribed root synteny cannot be written
             # in the document; it is attached through the API (keyed by the root node)
@@ -406,6 +408,9 @@ def spec_document(spec):
     costs = spec_costs(spec)
     onames = canon.internal_names(spec["object"], "O", spec["named"])
     snames = canon.internal_names(spec["species"], "S", spec["named"])
+    if spec.get("cost_float"):
+        # the same unit costs as floats (a JSON document that says 1.0 instead of 1)
+        costs = {k: float(v) for k, v in costs.items()}
     doc = {
         "object_tree": ref.to_newick(spec["object"], onames, spec_colors(spec)),
         "species_tree": ref.to_newick(spec["species"], snames),
@@ -446,6 +451,12 @@ def build_input(spec):
         if spec.get("syn_as") == "tuple":
             for node in list(obj.leaf_syntenies):
                 obj.leaf_syntenies[node] = tuple(obj.leaf_syntenies[node])
+        elif spec.get("syn_as") == "defaultdict":
+            # any Mapping will do for the field: one with __missing__ never raises KeyError
+            import collections
+
+            object.__setattr__(obj, "leaf_syntenies",
+                               collections.defaultdict(list, obj.leaf_syntenies))
         return obj
     return model.ReconciliationInput.from_dict(doc)
 
